@@ -63,7 +63,7 @@ CHECKS = {
          "property-based random program generation (proptest choice tape) + invariant over a repetition history (live-object count, quiescence)",
          "§10 C14"),
  "C11": ("exploration",
-         "Stateful histories on ONE interpreter: 1-4 earlier runs whose state lives in nested scopes (12 wrapper kinds incl. blocks, calls, constructors, try/finally, generator bodies, native callbacks; depth 1-8), run as script or module and ended by completion, by an uncaught error at the innermost level, or by abandonment after a tape-chosen number of steps, followed by observer programs (typeof of every name the dead runs declared, fresh declarations reusing them, a random progen program). Oracle: observer outcomes and bookkeeping (call_depth, H4 quiescence) equal those of a fresh interpreter that only performed the deliberate global writes; an ended run leaves the interpreter quiescent. Sampled, not exhaustive.",
+         "Stateful histories on ONE interpreter: 1-4 earlier runs whose state lives in nested scopes (12 wrapper kinds incl. blocks, calls, constructors, try/finally, generator bodies, native callbacks; depth 1-8), run as script or module and ended by completion, by an uncaught error at the innermost level, or by abandonment after a tape-chosen number of steps, or - one run in three - host-interacting module runs abandoned while parked in Suspended (awaiting 1-3 host orders in 6 nested shapes, 0..n answered) or in NeedImports (imports never supplied, dependency that throws after its first exports, missing/throwing deeper dependency, main body throwing after an export); followed by observer programs (typeof of every name the dead runs declared, fresh declarations reusing them, a random progen program) and three structured module observers (exports; namespace import + export *; two awaited orders with a late answer to a dead order arriving) whose result kinds, output and export tables (get_export_names/get_export) are compared too. Oracle: observer outcomes and bookkeeping (call_depth, H4 quiescence) equal those of a fresh interpreter that only performed the deliberate global writes; an ended run leaves the interpreter quiescent. Sampled, not exhaustive.",
          "Trusted: hook H4 (read-only snapshot); top-level declarations of earlier script runs are deliberate global effects and are replayed on the fresh interpreter; the value of the deliberate marker is read back from the used interpreter.",
          "stateful property-based testing (history of runs from a proptest choice tape) against a fresh-interpreter reference",
          "§10 C11"),
